@@ -43,6 +43,11 @@ MUTATORS = {
 # library methods that write into their FIRST ARGUMENT (fontMath: MathGlyph.extractGlyph(glyph), MathInfo.extractInfo(info),
 # MathKerning.extractKerning(font))
 ARG_MUTATING_METHODS = {"extractGlyph", "extractInfo", "extractKerning"}
+# library methods that write to (parts of) their receiver only where a certain attribute IS None:
+#   DesignSpaceDocument.loadSourceFonts(opener): `for s in self.sources: if s.font is not None: continue; s.font = ...`
+#   (fontTools/designspaceLib/__init__.py) -- it writes s.font for the sources whose font is None and nothing else.
+# method -> (collection attribute of the receiver, attribute of the elements)
+GUARDED_MUTATORS = {"loadSourceFonts": ("sources", "font")}
 PEN_GETTERS = {"getPen", "getPointPen"}
 PEN_METHODS = {
     "moveTo", "lineTo", "curveTo", "qCurveTo", "closePath", "endPath", "addComponent", "beginPath", "addPoint",
@@ -87,6 +92,10 @@ FRESH_FUNCS = {
 }
 # kinds of abstract objects that are never the value None (library results -- kind "ext" -- and anything read
 # from the source -- SRC -- may be None)
+# attributes of source / library objects (defcon, ufoLib2, fontTools.designspaceLib, feaLib ast, ...) that hold a str: an
+# immutable scalar, i.e. not an object that could be written to or that holds other objects. (Assumption on the library
+# object models: `.name` of a glyph, layer, anchor, component, axis, source, instance, lookup, ... is its name string.)
+SCALAR_LIB_ATTRS = {"name"}
 DEFINITE_KINDS = {"cont", "inst", "cls", "func", "bound", "mod", "glob", "attrs", "super", "extcls", "GS"}
 # dunder methods that python (or library code) invokes implicitly on an instance; they are analysed for every
 # instance that is created (see Analysis.implicit_dunders)
@@ -625,6 +634,8 @@ class Analysis:
         self.used_inv = set()
         self._broken_seen = set()
         self._chain_ok = {}
+        self.call_edges = defaultdict(set)
+        self._edge_info = {}
         self.used_kill = {}
         self.narrow = []  # active narrowings: (ctx key, local name, filter)
         self.deferred = 0  # >0 while the body of a generator expression is evaluated (it runs later)
@@ -1177,6 +1188,63 @@ class Analysis:
                 if any(lo <= b <= hi for b in bl):
                     return False
         return False
+
+    # ---- "every element of p.<coll> has <attr> set", established by a loop that dominates the call ------------------------
+    def guard_established(self, ctx, call_node, coll, attr, depth=0):
+        """For the call `p.m(..)` (call_node) in context ctx, where p is a parameter read before any rebinding: True if
+        every execution that reaches the call has completed, on the very object p refers to, a loop
+            for x in v.<coll>:
+                if x.<attr> is None: raise ...        (first statement of the loop body; no break in the loop)
+        Argument: ctx has exactly one incoming call edge, from a call statement S in a function g that passes its own
+        (never rebound) parameter v as p; the loop is a top-level statement of g that precedes S, so S runs only after the
+        loop has run to completion without raising, on the same object. Nothing between the loop and the call can have
+        changed the elements' <attr> if the object belongs to the caller's sources -- a write to a source object is
+        itself a (separately checked) violation. If g does not contain the loop, the same question is asked about v in
+        g's own unique caller."""
+        if ctx is None or depth > 3 or not isinstance(call_node, ast.Call) or not isinstance(call_node.func, ast.Attribute):
+            return False
+        recv = call_node.func.value
+        if not isinstance(recv, ast.Name) or not self.is_initial_read(ctx.func, recv):
+            return False
+        return self._param_all_set(ctx, recv.id, coll, attr, depth)
+
+    def _param_all_set(self, ctx, pname, coll, attr, depth):
+        edges = self.call_edges.get(ctx.key, set())
+        if len(edges) != 1:
+            return False
+        ((cctx_key, _nid),) = edges
+        info = self._edge_info.get((ctx.key, cctx_key, _nid))
+        if info is None:
+            return False
+        cctx, node, argmap = info
+        if cctx is None or node is None:
+            return False
+        an = argmap.get(pname)
+        if not isinstance(an, ast.Name) or not self.is_initial_read(cctx.func, an):
+            return False
+        g = cctx.func
+        if isinstance(g.node, ast.Lambda):
+            return False
+        pm = self._parents(g)
+        top = node
+        while pm.get(top) is not None and pm[top] is not g.node:
+            top = pm[top]
+        if pm.get(top) is not g.node or top not in g.node.body:
+            return False
+        i = g.node.body.index(top)
+        for st in g.node.body[:i]:
+            if isinstance(st, ast.For) and isinstance(st.target, ast.Name) and isinstance(st.iter, ast.Attribute) and st.iter.attr == coll \
+                    and isinstance(st.iter.value, ast.Name) and st.iter.value.id == an.id and self.is_initial_read(g, st.iter.value) \
+                    and not st.orelse and st.body and not any(isinstance(n, ast.Break) for n in ast.walk(st)) \
+                    and not self._binds_in(st.body, st.target.id):
+                f0 = st.body[0]
+                if isinstance(f0, ast.If) and not f0.orelse and f0.body and isinstance(f0.body[-1], ast.Raise):
+                    t = f0.test
+                    if isinstance(t, ast.Compare) and len(t.ops) == 1 and isinstance(t.ops[0], ast.Is) and isinstance(t.comparators[0], ast.Constant) \
+                            and t.comparators[0].value is None and isinstance(t.left, ast.Attribute) and t.left.attr == attr \
+                            and isinstance(t.left.value, ast.Name) and t.left.value.id == st.target.id:
+                        return True
+        return self._param_all_set(cctx, an.id, coll, attr, depth + 1) if depth < 3 else False
 
     # ---- a field whose containers are emptied and refilled by the constructor, before the object can be used ------------
     # Pattern (all conditions are checked on the text of the analysed classes and on the fixpoint):
@@ -1743,10 +1811,9 @@ class Analysis:
     def getattr_objs(self, objs, name, node, ctx):
         out = set()
         for o in objs:
-            if o.kind == "SRC":
-                out.add(self.SRC)
-            elif o.kind == "GS":
-                out.add(self.GS)
+            if o.kind in ("SRC", "GS"):
+                if name not in SCALAR_LIB_ATTRS:
+                    out.add(o)
             elif o.kind == "NONE":
                 continue
             elif o.kind == "inst":
@@ -1796,16 +1863,33 @@ class Analysis:
             else:  # cont / ext / func / bound
                 known = self.F[(o, name)] | self.F[(o, "*")]
                 out |= known
-                if o.kind == "ext" and not self.F[(o, name)]:
+                if o.kind == "ext" and not self.F[(o, name)] and name not in SCALAR_LIB_ATTRS:
                     # unknown attribute of a library object: part of that object's own state (assumption:
                     # library objects hand their constructor arguments back only through the catalogued
                     # protocols: keyword-named attributes, pens' output pen, container elements)
                     out.add(o)
         return out
 
-    def getattr_any(self, objs, node, ctx):
+    @staticmethod
+    def name_pattern(node):
+        """(prefix, suffix) when the string `node` evaluates to certainly starts / ends with these constants
+        (f"get_{x}", "set" + x, "%sMargin" % x), else None"""
+        if isinstance(node, ast.JoinedStr) and node.values:
+            pre = node.values[0].value if isinstance(node.values[0], ast.Constant) and isinstance(node.values[0].value, str) else ""
+            suf = node.values[-1].value if len(node.values) > 1 and isinstance(node.values[-1], ast.Constant) and isinstance(node.values[-1].value, str) else ""
+            return (pre, suf) if (pre or suf) else None
+        if isinstance(node, ast.BinOp) and isinstance(node.op, ast.Add):
+            pre = node.left.value if isinstance(node.left, ast.Constant) and isinstance(node.left.value, str) else ""
+            suf = node.right.value if isinstance(node.right, ast.Constant) and isinstance(node.right.value, str) else ""
+            return (pre, suf) if (pre or suf) else None
+        return None
+
+    def getattr_any(self, objs, node, ctx, pat=None):
         """getattr(o, <unknown name>): any attribute of o -- everything stored on it, every attribute of its class
-        (methods bound), and for a module / class object everything defined in it."""
+        (methods bound), and for a module / class object everything defined in it. `pat` = (prefix, suffix) the name
+        certainly has: for objects whose attribute names are known (instances and classes of analysed code, modules)
+        only the matching names are candidates."""
+        match = (lambda nm: isinstance(nm, str) and nm.startswith(pat[0]) and nm.endswith(pat[1])) if pat else (lambda nm: True)
         out = set()
         for o in objs:
             if o.kind in ("SRC", "GS"):
@@ -1813,15 +1897,17 @@ class Analysis:
                 continue
             if o.kind == "NONE":
                 continue
+            known_names = o.kind in ("inst", "cls", "mod")
             for a in self.F.attrs_of(o):
                 if a != "[]" and not (isinstance(a, str) and (a.startswith("k:") or a.startswith("dunder:"))) and not isinstance(a, tuple):
-                    out |= self.F[(o, a)]
+                    if a == "*" or not known_names or match(a):
+                        out |= self.F[(o, a)]
             if o.kind == "inst":
                 for k in o.py.__mro__:
                     if k is object:
                         continue
                     for nm, v in list(k.__dict__.items()):
-                        if nm.startswith("__") and nm.endswith("__"):
+                        if nm.startswith("__") and nm.endswith("__") or not match(nm):
                             continue
                         out |= self.bind(v, o, k, nm)
             elif o.kind == "cls":
@@ -1829,11 +1915,11 @@ class Analysis:
                     if k is object:
                         continue
                     for nm in list(k.__dict__):
-                        if not (nm.startswith("__") and nm.endswith("__")):
+                        if not (nm.startswith("__") and nm.endswith("__")) and match(nm):
                             out |= self.getattr_objs({o}, nm, node, ctx)
             elif o.kind == "mod":
                 for nm, v in list(vars(o.py).items()):
-                    if not nm.startswith("__"):
+                    if not nm.startswith("__") and match(nm):
                         out |= self.wrap_py(v, f"{o.py.__name__}.{nm}")
             elif o.kind in ("ext", "glob"):
                 out.add(o)  # unknown attribute of a library object: part of its own state
@@ -2066,7 +2152,22 @@ class Analysis:
         if keys is not None:
             return self.keyed_read(base, keys)
         idx = node.slice.value if isinstance(node.slice, ast.Constant) and isinstance(node.slice.value, int) and not isinstance(node.slice.value, bool) else None
+        if idx is not None and self.narrow and not self.deferred and isinstance(node.value, ast.Name) and isinstance(node.ctx, ast.Load) \
+                and self.is_initial_read(ctx.func, node.value):
+            r = self._subscript_const(base, idx)
+            for ck, nm, f in self.narrow:
+                if ck == ctx.key and nm == node.value.id and f[0] == "sub" and f[1] == idx:
+                    _, _, classes, positive = f
+                    if positive and all(c in self.SCALAR_TYPES for c in classes):
+                        return set()
+                    r = {o for o in r if self.instance_verdict(o, classes) in (None, positive)}
+            return r
         if idx is not None:
+            return self._subscript_const(base, idx)
+        return self.elements(base)
+
+    def _subscript_const(self, base, idx):
+        if True:
             # t[i] of a tuple whose length is known (tuple display, zip row, *args of a call without starred
             # arguments, named tuple): tuples are immutable, so position i holds exactly what was put there
             out = set()
@@ -2408,6 +2509,10 @@ class Analysis:
         if name == "__init__" and o.kind == "inst":
             self.flag(node, "explicit call of __init__ on an existing object")
         if o.kind in ("SRC", "GS"):
+            if name in GUARDED_MUTATORS and self.guard_established(ctx, node, *GUARDED_MUTATORS[name]):
+                # discharged obligation: every element was checked to have the attribute set before this call can run
+                self.sites.setdefault((self.site(node), f".{name}() [no element with {GUARDED_MUTATORS[name][1]} None]"), set()).add(o.label + " (guard established)")
+                return {o}
             if name in MUTATORS:
                 self.mutate({o}, node, f".{name}()")
                 return {o}
@@ -2641,7 +2746,10 @@ class Analysis:
             elif d.kind == "ext":
                 for a in self.F.attrs_of(d):
                     if a != "[]":
-                        self.add(self.F[(e, a)], self.F[(d, a)])
+                        vals = self.F[(d, a)]
+                        if os.environ.get("FRAMES_HACK_SNAP"):  # EXPLORATION ONLY (unsound)
+                            vals = {x for x in vals if x.kind in ("SRC", "GS")}
+                        self.add(self.F[(e, a)], vals)
         return r
 
     def new_ext(self, node, wraps, through, target=None):
@@ -2986,11 +3094,12 @@ class Analysis:
         if name == "getattr":
             out = set()
             names = self.strs(args[1][0], ctx, none_ok=True) if len(args) >= 2 and args[1][0] not in (None, "*") else None
+            pat = self.name_pattern(args[1][0]) if names is None and len(args) >= 2 and args[1][0] not in (None, "*") else None
             if names is not None:
                 for nm in names:
                     out |= self.getattr_objs(args[0][1], nm, node, ctx)
             elif args:
-                out |= self.getattr_any(args[0][1], node, ctx)
+                out |= self.getattr_any(args[0][1], node, ctx, pat)
             if len(args) > 2:
                 out |= args[2][1]
             return out
@@ -3285,6 +3394,20 @@ class Analysis:
             self.ctxs[ckey] = c
             self.changed = True
         callee = self.ctxs[ckey]
+        # who enters this context, from which call expression, and with which argument expression per parameter
+        ek = (ctx.key if ctx is not None else None, id(node) if node is not None else None)
+        if ek not in self.call_edges[callee.key]:
+            self.call_edges[callee.key].add(ek)
+            argmap = {}
+            if args is not None:
+                for p_, (an_, _s) in zip(params, args):
+                    if an_ == "*":
+                        break
+                    if an_ is not None:
+                        argmap[p_] = an_
+                for k_, (an_, _s) in (kwargs or {}).items():
+                    argmap[k_] = an_
+            self._edge_info[(callee.key,) + ek] = (ctx, node, argmap)
 
         def bindp(p, vals):
             # the call-time binding is kept apart (name@in) for reads that certainly see it (is_initial_read)
@@ -3522,6 +3645,17 @@ class Analysis:
             classes = self.class_tuple(t.args[1], ctx)
             if classes:
                 out.append((t.args[0].id, ("isinstance", tuple(classes), positive)))
+        elif isinstance(t, ast.Call) and isinstance(t.func, ast.Name) and t.func.id == "isinstance" and len(t.args) == 2 and not t.keywords \
+                and isinstance(t.args[0], ast.Subscript) and isinstance(t.args[0].value, ast.Name) and isinstance(t.args[0].slice, ast.Constant) \
+                and isinstance(t.args[0].slice.value, int) and not isinstance(t.args[0].slice.value, bool) \
+                and self.lookup("isinstance", ctx) is None and "isinstance" not in ctx.func.module.__dict__:
+            # isinstance(args[i], C) where args is the *args tuple of this function (read before any rebinding): a tuple
+            # is immutable, so args[i] is the same object wherever `args` still has that binding
+            x = t.args[0].value
+            va = getattr(ctx.func.node.args, "vararg", None)
+            classes = self.class_tuple(t.args[1], ctx)
+            if classes and va is not None and va.arg == x.id and self.is_initial_read(ctx.func, x):
+                out.append((x.id, ("sub", t.args[0].slice.value, tuple(classes), positive)))
         elif isinstance(t, ast.Compare) and len(t.ops) == 1 and isinstance(t.ops[0], (ast.Is, ast.IsNot)) and isinstance(t.left, ast.Name) \
                 and isinstance(t.comparators[0], ast.Constant) and t.comparators[0].value is None:
             out.append((t.left.id, ("none", isinstance(t.ops[0], ast.Is) == positive)))
@@ -3548,7 +3682,7 @@ class Analysis:
 
     def apply_narrow(self, vals, ctx, name):
         for ck, nm, f in self.narrow:
-            if nm != name or ck != ctx.key:
+            if nm != name or ck != ctx.key or f[0] == "sub":
                 continue
             if f[0] == "isinstance":
                 _, classes, positive = f
@@ -3729,6 +3863,8 @@ class Analysis:
         self.mutated_globs.clear()
         self.used_inv.clear()
         self.used_kill.clear()
+        self.call_edges.clear()
+        self._edge_info.clear()
         self.changed = True
 
     def flag(self, node, reason):
